@@ -216,8 +216,21 @@ def files_matchers(depth, force_max):
     if depth <= 0:
         return st.one_of(*leaves, _consts)
     sub = st.deferred(lambda: files_matchers(depth - 1, force_max))
+    # nested selections: the inner FILE-MATCHER is applied to "the sub set of files matched by" the outer one only -
+    # an inner matcher that is HARD_ERROR on the file types the outer one excludes must never meet such a file
+    only_files = st.builds(lambda tm: {'k': 'contents', 'tm': tm}, _text_matchers)
+    only_dirs = st.builds(lambda rec, m: {'k': 'dircontents', 'rec': rec, 'm': m}, rec_opts(force_max),
+                          st.deferred(lambda: files_matchers(0, force_max)))
+    nested_sel = st.one_of(
+        st.builds(lambda inner, m: {'k': 'sel', 'fm': {'k': 'type', 'v': 'file'},
+                                    'm': {'k': 'sel', 'fm': inner, 'm': m}}, only_files, sub),
+        st.builds(lambda inner, m: {'k': 'sel', 'fm': {'k': 'type', 'v': 'dir'},
+                                    'm': {'k': 'sel', 'fm': inner, 'm': m}}, only_dirs, sub),
+        st.builds(lambda inner, q: {'k': 'sel', 'fm': {'k': 'type', 'v': 'file'},
+                                    'm': {'k': q, 'fm': inner}}, only_files, st.sampled_from(['every', 'any'])))
     return st.one_of(
         *leaves[1:],
+        nested_sel,
         st.builds(lambda f, m: {'k': 'sel', 'fm': f, 'm': m}, fm, sub),
         st.builds(lambda f, m: {'k': 'sel', 'fm': f, 'm': m}, fm, sub),
         st.builds(lambda f, m: {'k': 'sel', 'fm': f, 'm': m}, fm, sub),
